@@ -146,6 +146,28 @@ def check_row(P, R, rule, fl, row, mw):
         fs = P.fns_named(row["by"])
         if not fs:
             return False, "function %s not found" % row["by"]
+        if cls in ("consumed", "consumed_guarded", "per_simulation"):
+            # the argument "the self-test run of LoadDatabase executes <by>" needs <by> to be called unconditionally by the
+            # per-call driver (a `if (new_copy) copy_entities()` does NOT run for the self-test input) or by read_input's caller
+            drv = P.one("IPhreeqc::do_run")
+            uncond = False
+
+            def rec(n, cond):
+                nonlocal uncond
+                if not T.is_node(n):
+                    return
+                if n[0] == "If":
+                    rec(n[2], cond)
+                    rec(n[3], True)
+                    rec(n[4], True)
+                    return
+                if n[0] == "Call" and T.callee_q(n) == row["by"] and not cond:
+                    uncond = True
+                for c in T.children(n):
+                    rec(c, cond or n[0] in ("Switch", "Cond"))
+            rec(drv["body"], False)
+            if not uncond:
+                return False, "%s is not called unconditionally by IPhreeqc::do_run: the self-test run of a load need not execute it" % row["by"]
         for f in fs:
             if cls == "consumed_guarded":
                 m = must_after_leading_guard(mw, P, f)
